@@ -8,8 +8,10 @@
       the instance / host labels built in `__init__`                          (accessory_driver.py)
     * `Accessory.xhm_uri`, `base36.dumps`, `str.upper`, `str.rjust`            (accessory.py)
   The `...Legacy` functions are the name sanitisers as they were before the repair.
+    * `AccessoryMDNSServiceInfo._setup_hash` (SHA-512 of setup id + mac, first 4 bytes, base64)
   No Mathlib import: this file is loaded by the line-protocol driver.
 -/
+import HapModel.Sha512
 namespace Hap.Advert
 
 /-! ## configuration number (`c#`) -/
@@ -183,7 +185,7 @@ structure Info where
   mac : List Char
   cfg : Nat
   paired : Bool          -- `state.paired`, i.e. `len(paired_clients) > 0`
-  setupHash : String     -- `_setup_hash()` (SHA-512 based, passed through)
+  setupHash : String     -- `_setup_hash()`; the driver computes it with `setupHash` below
 
 /-- the dict returned by `_get_advert_data`, in insertion order -/
 def advertData (i : Info) : List (String × String) :=
@@ -200,6 +202,29 @@ def advertData (i : Info) : List (String × String) :=
 def lookup (k : String) : List (String × String) → Option String
   | [] => none
   | (a, b) :: rest => if a = k then some b else lookup k rest
+
+/-! ## setup hash (`_setup_hash`) -/
+
+def B64 : List Char := "ABCDEFGHIJKLMNOPQRSTUVWXYZabcdefghijklmnopqrstuvwxyz0123456789+/".toList
+def b64Char (n : Nat) : Char := B64.getD n '?'
+
+/-- `base64.b64encode` (standard alphabet, '=' padding) -/
+def b64Encode : List UInt8 → List Char
+  | a :: b :: c :: rest =>
+    let n := a.toNat * 65536 + b.toNat * 256 + c.toNat
+    b64Char (n / 262144) :: b64Char (n / 4096 % 64) :: b64Char (n / 64 % 64) :: b64Char (n % 64) ::
+      b64Encode rest
+  | [a, b] =>
+    let n := (a.toNat * 256 + b.toNat) * 4
+    [b64Char (n / 4096), b64Char (n / 64 % 64), b64Char (n % 64), '=']
+  | [a] =>
+    let n := a.toNat * 16
+    [b64Char (n / 64), b64Char (n % 64), '=', '=']
+  | [] => []
+
+/-- `_setup_hash`: `base64(sha512((setup_id + mac).encode())[:4])` -/
+def setupHash (setupId mac : List Char) : String :=
+  String.ofList (b64Encode ((Hap.Sha512.sha512 (String.ofList (setupId ++ mac)).toUTF8.toList).take 4))
 
 /-! ## setup payload (`Accessory.xhm_uri`) -/
 
